@@ -179,6 +179,13 @@ def lattice_c04(ctx):
     fe = y2[0] + 2 * y2[1] + 0.5 * y2[0] ** 2
     for nm, h in (('1 - y0 y1 == 0', 1 - y2[0] * y2[1]), ('y0 y1 - 1 == 0', y2[0] * y2[1] - 1)):
         insts.append(('min y0+2y1+.5y0^2 s.t. %s, y <= 5' % nm, fe, [5 - y2[0], 5 - y2[1]], [h], man, [(0, 1, 0), (1, 1, 0)]))
+    # the inferred domain's cone list has its zero cone BEFORE exponential cones: a monomial equation together with a three-term
+    # posynomial inequality (K = [+, 0, e, e]); same grid on the manifold y0 y1 = 1
+    insts.append(('min y0+2y1+.5y0^2 s.t. y0 y1 == 1, y0 + y1 <= 3', fe, [3 - y2[0] - y2[1]], [1 - y2[0] * y2[1]], man, [(0, 1, 0)]))
+    # cube-root exponents: after products the Lagrangian carries 0.6666666 (= 2 * 0.3333333) next to 0.6666667 (= 2/3 rounded)
+    fc = y[0] ** (2.0 / 3.0) - 4 * y[0] ** (1.0 / 3.0) + y[0] ** -1 + 1
+    insts.append(('min y^(2/3) - 4 y^(1/3) + 1/y + 1 s.t. 1 <= y <= 27', fc, [y[0] ** (1.0 / 3.0) - 1, 27 - y[0]], [],
+                  [np.array([t]) for t in np.linspace(0.0, math.log(27.0), 6001)], [(0, 1, 0), (0, 1, 1)]))
     # exponents that are not binary fractions (0.1, 0.3, 0.6): sums of exponent rows computed in floating point need not be bit-identical
     # to the rounded rows of the Lagrangian
     fd = y[0] ** 0.6 + y[0] ** -0.3
@@ -186,7 +193,7 @@ def lattice_c04(ctx):
                   [np.array([t]) for t in np.linspace(0.0, 3.0, 6001)], [(0, 1, 0), (1, 1, 0), (1, 2, 0)]))
     nsolves = 0
     for name, f, gts, eqs, pts, levels in insts:
-        feas = [x for x in pts if all(float(g(x)) >= 0 for g in gts)]
+        feas = [x for x in pts if all(float(g(x)) >= -1e-12 for g in gts)]
         ub = min(float(f(x)) for x in feas)
         for dom in ('R^n', 'inferred'):
             X = ss.infer_domain(f, gts, eqs) if dom == 'inferred' else None
@@ -269,6 +276,39 @@ def lattice_c05(ctx):
         nsolves += 2
     why = _judge(vals, ubu, 'min x0^2+x1^2-x0x1+.5x0 over {|x0 x1| = 1, 1/2 <= |x0| <= 2} (equality block first)',
                  [[('primal', 'poly_relaxation over user X'), ('dual', 'poly_relaxation over user X')]], [])
+    if why:
+        return why, nsolves
+    # a PolyDomain given as conic data with AUXILIARY columns (log_AbK from compiling abs(y) <= 1: X = {1/e <= |x_i| <= e}), and the
+    # modulated dual (poly_ell >= 1) over a domain that matters
+    from sageopt.coniclifts.operators.abs import abs as cl_abs
+    ya = cl.Variable(shape=(2,), name='lat_abs_y')
+    Aa, ba, Ka = cl.compile_constrained_system([cl_abs(ya) <= 1])[:3]
+    Xa = PolyDomain(2, log_AbK=(Aa.toarray(), ba, Ka))
+    pa = x2[0] ** 2 + x2[1] ** 2 - x2[0] * x2[1] + x2[0]
+    mags = np.exp(np.linspace(-1, 1, 41))
+    uba = min(float(pa(np.array([sa * u, sb * w]))) for u in mags for w in mags for sa in (1.0, -1.0) for sb in (1.0, -1.0))
+    vals = {}
+    for form in ('primal', 'dual'):
+        for pe in (0, 1):
+            vals[(form, 'poly_relaxation over log_AbK domain', 'poly_ell=%d' % pe)] = _solve(lambda: sp.poly_relaxation(pa, X=Xa, form=form, poly_ell=pe))
+        vals[(form, 'poly_constrained_relaxation over log_AbK domain')] = _solve(lambda: sp.poly_constrained_relaxation(pa, [], [], Xa, form=form))
+        nsolves += 3
+    why = _judge(vals, uba, 'min x0^2+x1^2-x0x1+x0 over {1/e <= |x_i| <= e} given as log_AbK with auxiliary columns',
+                 [[('primal', 'poly_relaxation over log_AbK domain', 'poly_ell=0'), ('dual', 'poly_relaxation over log_AbK domain', 'poly_ell=0')],
+                  [('primal', 'poly_relaxation over log_AbK domain', 'poly_ell=1'), ('dual', 'poly_relaxation over log_AbK domain', 'poly_ell=1')]], [])
+    if why:
+        return why, nsolves
+    # the domain matters: x0^3 - x0 is unbounded below on R but not on |x0| <= 2; every level and both forms see the domain
+    pd = x[0] ** 3 - 3 * x[0]
+    Xd = sp.infer_domain(pd, [4 - x[0] ** 2], [])
+    ubd = min(float(pd(np.array([t]))) for t in np.linspace(-2, 2, 4001))
+    vals = {}
+    for form in ('primal', 'dual'):
+        for pe in (0, 1, 2):
+            vals[(form, 'poly_ell=%d' % pe)] = _solve(lambda: sp.poly_relaxation(pd, X=Xd, form=form, poly_ell=pe))
+            nsolves += 1
+    why = _judge(vals, ubd, 'min x^3 - 3x over |x| <= 2 (unbounded below on R)', [[('primal', 'poly_ell=%d' % pe), ('dual', 'poly_ell=%d' % pe)] for pe in (0, 1, 2)],
+                 [[(form, 'poly_ell=0'), (form, 'poly_ell=1'), (form, 'poly_ell=2')] for form in ('primal', 'dual')])
     if why:
         return why, nsolves
     # constrained, both reflections (the minimiser lies in different orthants)
